@@ -218,7 +218,7 @@ func c03Exec(c c03Case, st *lab.Stats) *lab.Fail {
 			}
 		}
 		st.Case(matches >= 2 || matches == 0, lab.JSONKey([]interface{}{c.Routes, c.Defaults, q}),
-			"op="+q.Op, fmt.Sprintf("matching=%d", min3(matches)), "outcome="+classOfWant(want[i]), fmt.Sprintf("nroutes=%d", len(c.Routes)))
+			"op="+q.Op, fmt.Sprintf("matching=%d", min3(matches)), "outcome="+classOfWant(want[i]), fmt.Sprintf("nroutes=%s", routesBucket(len(c.Routes))))
 		buf = append(buf, q.spec(int64(1000+i)).Bytes()...)
 	}
 	if st.WantSample() {
@@ -380,12 +380,17 @@ func TestC03Random(t *testing.T) {
 	kinds := allRouteKinds()
 	reqs := allRouteReqs()
 	lab.Prop[c03Case]{
-		ID: "C03", Part: "random", Rule: "rapid: tables of 0..8 routes; " + c03Rule,
+		ID: "C03", Part: "random", Rule: "rapid: tables of 0..8 routes, one in five of up to 40 routes; " + c03Rule,
 		Gen: func(t *rapid.T) c03Case {
 			// the order in which the requests hit the mux is generated too: routing must not depend on history
 			c := c03Case{Defaults: rapid.IntRange(0, 2).Draw(t, "defaults"), Reqs: rapid.Permutation(reqs).Draw(t, "reqorder")}
 			// bias towards search routes that overlap
-			c.Routes = rapid.SliceOfN(rapid.SampledFrom(kinds), 0, 8).Draw(t, "routes")
+			// mostly small tables; one in five is large (up to 40 routes: beyond any small-size fast path of the table's data structure)
+			maxRoutes := 8
+			if rapid.IntRange(0, 4).Draw(t, "large") == 0 {
+				maxRoutes = 40
+			}
+			c.Routes = rapid.SliceOfN(rapid.SampledFrom(kinds), 0, maxRoutes).Draw(t, "routes")
 			c.GoLDAP = rapid.IntRange(0, 3).Draw(t, "goldap") == 0
 			return c
 		},
@@ -458,4 +463,16 @@ func TestC03Exhaustive(t *testing.T) {
 	}
 	st.SetExtra("tables", int64(len(tables)*3))
 	st.SetExhaustive(true)
+}
+
+func routesBucket(n int) string {
+	switch {
+	case n <= 8:
+		return fmt.Sprint(n)
+	case n <= 12:
+		return "9-12"
+	case n <= 24:
+		return "13-24"
+	}
+	return "25+"
 }
